@@ -25,7 +25,7 @@ TECHNIQUE = ('deterministic simulation of the file-and-process boundary: '
              '--execute in another under a different PYTHONHASHSEED, forked '
              'database for the twin continuation')
 PLAN = {
-    'quick': {'count': 300, 'max_wall': 170, 'shrink_budget': 30,
+    'quick': {'count': 450, 'max_wall': 170, 'shrink_budget': 30,
               'shrink_wall': 120},
     'thorough': {'count': 6000, 'max_wall': 1500, 'shrink_budget': 60,
                  'shrink_wall': 300},
